@@ -410,7 +410,12 @@ class RealWorld(BaseWorld):
             out["gatts"] = {k: nc.getncattr(k) for k in nc.ncattrs()}
             for name, v in nc.variables.items():
                 v.set_auto_maskandscale(True)
-                data = v[...]
+                if v.ndim >= 2 and v.shape[0] > 0:
+                    # netCDF4 1.7.4 + numpy 2.5 return scrambled rows when a 2-D variable with an unlimited second
+                    # dimension is read in one piece and some rows were never written: read record by record
+                    data = rnp.ma.stack([rnp.ma.atleast_1d(v[r]) for r in range(v.shape[0])])
+                else:
+                    data = v[...]
                 data = rnp.ma.masked_invalid(data) if data.dtype.kind == "f" else rnp.ma.asarray(data)
                 out["vars"][name] = _ma_tolist(data)
                 out["atts"][name] = {k: v.getncattr(k) for k in v.ncattrs()}
